@@ -254,8 +254,22 @@ inductive MdState
   | other     -- complete / failed / disabled …
 deriving Repr, DecidableEq
 
-/-- `st, ok := getState(); ok && st != Queued && st != Waiting` -/
-def MdState.cancelled : MdState → Bool
+/-- The closure `canceled` of `MaxJobsSemaphore.Acquire`:
+`st, ok := getState(); ok && st != Queued && st != Waiting && !(nonblocking && st == Running)`.
+A job that is neither queued nor waiting was cancelled between being enqueued and
+now — except that the non-blocking call is the re-attach after a restart
+(`RemoteJobManager.reattach`), where a job already Running on the cluster still
+occupies its slot. -/
+def MdState.cancelled (st : MdState) (nonblocking : Bool) : Bool :=
+  match st with
+  | .waiting => false
+  | .queued => false
+  | .running => !nonblocking
+  | .other => true
+
+/-- The test as it was BEFORE the repair of the re-attach defect (audit C12-H7):
+`ok && st != Queued && st != Waiting`, also for the non-blocking re-attach. -/
+def MdState.cancelledOld : MdState → Bool
   | .waiting => false
   | .queued => false
   | _ => true
@@ -275,7 +289,7 @@ def MJ.init (limit : Int) : MJ := ⟨limit, []⟩
 /-- One pass through `Acquire` (from entry, or after being woken from
 `cond.Wait()`): `some b` = returns b, `none` = goes (back) to `cond.Wait()`. -/
 def MJ.attempt (s : MJ) (id : Nat) (st : MdState) (nonblocking : Bool) : MJ × Option Bool :=
-  if st.cancelled then (s, some false)
+  if st.cancelled nonblocking then (s, some false)
   else if s.limit ≤ (s.running.length : Int) then
     if s.limit ≤ 0 then (s, some false)
     else if s.running.contains id then (s, some true)
@@ -283,6 +297,23 @@ def MJ.attempt (s : MJ) (id : Nat) (st : MdState) (nonblocking : Bool) : MJ × O
     else (s, none)
   else
     (if s.running.contains id then s else { s with running := s.running ++ [id] }, some true)
+
+/-- `Acquire` before the repair (`cancelledOld`); kept for the negative witness
+`Props.C12.reattach_dropped_running_jobs_before_fix`. -/
+def MJ.attemptOld (s : MJ) (id : Nat) (st : MdState) (nonblocking : Bool) : MJ × Option Bool :=
+  if st.cancelledOld then (s, some false)
+  else if s.limit ≤ (s.running.length : Int) then
+    if s.limit ≤ 0 then (s, some false)
+    else if s.running.contains id then (s, some true)
+    else if nonblocking then (s, some false)
+    else (s, none)
+  else
+    (if s.running.contains id then s else { s with running := s.running ++ [id] }, some true)
+
+/-- a sequence of (old) Acquire passes `(id, state, nonblocking)` -/
+def MJ.runOld : MJ → List (Nat × MdState × Bool) → MJ
+  | s, [] => s
+  | s, (id, st, nb) :: ops => MJ.runOld (s.attemptOld id st nb).1 ops
 
 inductive MJOp
   | attempt (id : Nat) (st : MdState) (nonblocking : Bool)
